@@ -906,8 +906,9 @@ static int write_table(void *context, cif_value_tp *table_value) {
                 cif_value_tp *kv = NULL;
                 cif_value_tp *value = NULL;
 
-                if (cif_value_get_item_by_key(table_value, *key, &value) != CIF_OK) {
-                    FAIL(soft, CIF_INTERNAL_ERROR);
+                if ((result = cif_value_get_item_by_key(table_value, *key, &value)) != CIF_OK) {
+                    /* the key comes from the table itself, so the lookup can fail only for lack of memory */
+                    FAIL(soft, (result == CIF_MEMORY_ERROR) ? CIF_MEMORY_ERROR : CIF_INTERNAL_ERROR);
                 }
 
                 /*
